@@ -1,12 +1,84 @@
-/- Drv/C08.lean — driver handler for property C08 (line protocol; core-only imports). -/
+/- Drv/C08.lean — driver handler for property C08 (normal forms / contraction-order optimisation). -/
 import FunsorVerif.Core.Sexp
 import FunsorVerif.Core.XR
+import FunsorVerif.Core.Semiring
+import FunsorVerif.Model.TermParse
+import FunsorVerif.Model.C08
 namespace FV.Drv.C08
-open FV
+open FV FV.C08
 
-/-- `args` are the top-level S-expressions following the property tag on the request line. -/
+def opsOf (s : SR) : Ops XR := ⟨s.add, s.mul, s.zero, s.one⟩
+
+def parseSizes (s : Sexp) : Option (List (String × Nat)) := do
+  let xs ← s.asList?
+  xs.mapM fun p => match p with
+    | Sexp.list [n, k] => do pure ((← n.asStr?), (← k.asNat?))
+    | _ => none
+
+def sizeFn (sizes : List (String × Nat)) : String → Nat := fun n => (sizes.lookup n).getD 1
+
+/-- A model environment as a `denote` environment over the listed names (then the real parameters). -/
+def semEnv (names : List String) (env : C08.Env) (extra : FV.Env) : FV.Env :=
+  names.map (fun n => (n, Sem.ofNat (env n))) ++ extra
+
+/-- The scalar value of a wire term at a model environment (`nan` when undefined / not a scalar). -/
+def termSem (t : Term) (names : List String) (extra : FV.Env) : C08.Env → XR := fun env =>
+  match denote t (semEnv names env extra) with
+  | some s => if s.shape.isEmpty then s.get [] else XR.nan
+  | none => XR.nan
+
+/-- All points of the named inputs, row-major, as model environments. -/
+def points : List (String × Nat) → List C08.Env
+  | [] => [fun _ => 0]
+  | (n, k) :: rest => (List.range k).flatMap fun i => (points rest).map fun e => upd e n i
+
+def showVals (v : List XR) : Sexp := Sexp.list (v.map XR.toSexp)
+def showNames (v : List String) : Sexp := Sexp.list (v.map Sexp.str)
+
+def parseOperands (s : Sexp) : Option (List (List String × Term)) := do
+  let xs ← s.asList?
+  xs.mapM fun p => match p with
+    | Sexp.list [ins, t] => do pure ((← ins.asStrs?), (← parseTerm t))
+    | _ => none
+
+def parsePath (s : Sexp) : Option (List (Nat × Nat)) := do
+  let xs ← s.asList?
+  xs.mapM fun p => match p with
+    | Sexp.list [a, b] => do pure ((← a.asNat?), (← b.asNat?))
+    | _ => none
+
+/--
+  C08 denote TERM (("n" size)*) ENV
+        table of the textbook value (shared `denote`)
+  C08 optimize SR (("n" size)*)sizes ("n"*)reduced (((“n”*) TERM)*)operands ((a b)*)path (("n" size)*)free ENV
+        the model of optimize_contract_finitary_funsor on the given path:
+        ok (value v*) (spec v*) (trace (lo hi ("n"*))*) (final "n"*) (ins "n"*)   |  ok malformed-path
+-/
 def handle (args : List Sexp) : String :=
   match args with
-  | _ => "err unimplemented"
+  | Sexp.atom "denote" :: rest => (handleDenote rest).getD "err bad-args"
+  | [Sexp.atom "optimize", Sexp.atom srn, sizes, reduced, operands, path, free, env] =>
+    match SR.ofName? srn, parseSizes sizes, reduced.asStrs?, parseOperands operands, parsePath path,
+          parseSizes free, parseEnv env with
+    | some sr, some sizes, some reduced, some operands, some path, some free, some extra =>
+      let o := opsOf sr
+      let size := sizeFn sizes
+      let names := sizes.map (·.1)
+      let terms : List (Operand XR) := operands.map fun (ins, t) => ⟨ins, termSem t names extra⟩
+      match optimize o size reduced terms path with
+      | none => "ok malformed-path"
+      | some (res, trs, fin) =>
+        let pts := points free
+        let vals := pts.map res.sem
+        let spec := pts.map (contractSpec o size reduced terms)
+        let tr := Sexp.list (trs.map fun t => Sexp.list [Sexp.ofNat t.lo, Sexp.ofNat t.hi, showNames t.pathEndVars])
+        "ok " ++ toString (Sexp.list [
+          Sexp.list [Sexp.atom "value", showVals vals],
+          Sexp.list [Sexp.atom "spec", showVals spec],
+          Sexp.list [Sexp.atom "trace", tr],
+          Sexp.list [Sexp.atom "final", showNames fin],
+          Sexp.list [Sexp.atom "ins", showNames res.ins]])
+    | _, _, _, _, _, _, _ => "err bad-args"
+  | _ => "err bad-request"
 
 end FV.Drv.C08
